@@ -19,3 +19,21 @@ pub fn point(name: &'static str) {
         hook(name);
     }
 }
+
+/// Fault injection: a second process-global callback asked at named operations whether the operation
+/// must fail now with an injected error (`true`).  With no callback installed nothing ever fails.
+pub type FailHook = Arc<dyn Fn(&'static str) -> bool + Send + Sync>;
+
+static FAIL_HOOK: RwLock<Option<FailHook>> = RwLock::new(None);
+
+pub fn set_fail_hook(hook: Option<FailHook>) {
+    *FAIL_HOOK.write().unwrap_or_else(|e| e.into_inner()) = hook;
+}
+
+pub fn fail(name: &'static str) -> bool {
+    let hook = FAIL_HOOK.read().unwrap_or_else(|e| e.into_inner()).clone();
+    match hook {
+        Some(hook) => hook(name),
+        None => false,
+    }
+}
